@@ -104,6 +104,10 @@ def main(argv):
                 if d[0] == 'itf':
                     for e in d[3]:
                         e[0] = e[0] + 'Rev'
+                elif d[0] in ('comp', 'sys') and d[1] == [case['cfg']['enc'][-1]] and d[2]:
+                    # the revised component has its ports in the opposite order and one more requires port
+                    d[2].reverse()
+                    d[2].append(['revOnly', list(d[2][0][1]), 'requires', False])
                 elif d[0] == 'ns':
                     walk(d[2])
         walk(r['file'])
@@ -113,8 +117,10 @@ def main(argv):
             r['cfg']['ports'] = dict(r['cfg']['ports'], mc=[mc[0], mc[1] + 'Rev', mc[2], mc[3] + 'Rev'])
         return r
     probes = []
-    for _ in range(6 if tier == 'quick' else 60):
+    while len(probes) < (20 if tier == 'quick' else 120):
         a = GB.gen_case(rng)
+        if not a['info']['ports']:
+            continue          # nothing to revise in a component without ports
         b = revision({'file': a['file'], 'cfg': a['cfg']})
         probes.append({'models': [a['file'], b['file']], 'cfg_a': a['cfg'], 'cfg_b': b['cfg']})
     pres = run_impl('build_worker', {'cases': [dict(op='collide', **p) for p in probes]}, timeout=3000)['results']
